@@ -35,6 +35,66 @@ ASSUMPTIONS = ["one generic field represents every field (thorough: two fields)"
 PML = f"{M_BUILDER}::CodeBuilder._add_pack_method_lines"
 
 
+def _default_literal(repo: Repo, rep: Report) -> None:
+    """R08.7: the source text that stands for a field default in the `omit_default` comparison denotes the default.
+    get_field_default_literal is partially evaluated over a symbolic value; every path either binds the object itself
+    under a fresh name (ensure_object_imported(value, name) -- always right) or renders text, and text is accepted only
+    under a guard for which rendering round-trips (`eval(text) == value`): exact builtin scalar types; finite floats;
+    IntFlag through its int value; tuples rendered element-wise through the same function."""
+    import ast as _ast
+
+    from ..core.pe import Path
+    from ..core.scen import make_eval
+    from ..core.values import Func, Sym, Tmpl, V, show
+
+    fi = repo.func(M_BUILDER, "CodeBuilder.get_field_default_literal")
+    dummy = _ast.parse("f(x)").body[0].value
+    ev = make_eval(repo, inline_depth=3, allow_inline={"get_field_default_literal"})
+    ev.max_recursion = 1
+    p = Path()
+    B = ev.builder_obj(p)
+    res = ev.call_func(Func(fi, self_v=B), [Sym("value")], {}, p, dummy, force=True)
+    n = 0
+    for r, q in res:
+        if q.ctl == "raise":
+            continue
+        bound = {show(e[2]) if isinstance(e[2], V) else e[2]: show(e[1]) for e in q.events if e and e[0] == "ensure_object" and len(e) > 2}
+        for w in q.worlds():
+            at = Path._view(w, "A|")
+            n += 1
+            txt = show(r)
+            on = {k for k, v in at.items() if v}
+            off = {k for k, v in at.items() if not v}
+            cond = ", ".join(sorted(on) + [f"not {k}" for k in sorted(off)])
+            if txt in bound:
+                if bound[txt] == "value":
+                    rep.ok("R08.7", f"[{cond}] -> bound by identity under a fresh name", None)
+                else:
+                    rep.violation("R08.7", fi.key, f"[{cond}] -> name bound to `{bound[txt]}` instead of the default", "the comparison would use another object", loc=fi.loc)
+                continue
+            holes = [h for h in r.parts if not isinstance(h, str)] if isinstance(r, Tmpl) else []
+            hv = [(show(h.val), h.conv) for h in holes if not getattr(h, "more", False)]
+            ok = False
+            if any("type(value) in (str, int, bool, NoneType)" in k for k in on) and hv == [("value", "r")]:
+                ok = True
+            elif any("isinstance(value, float)" in k for k in on) and any("isnan" in k for k in off) and any("isinf" in k for k in off) and hv == [("value", "r")]:
+                ok = True
+            elif any("isinstance(value, enum.IntFlag)" in k for k in on) and hv == [("value.value", "s")]:
+                ok = True
+            elif any("isinstance(value, tuple)" in k for k in on) and any("is_named_tuple" in k for k in off) and hv and all(
+                    "get_field_default_literal(" in v for v, c in hv):
+                ok = True  # element-wise through the same function: sound by induction on the nesting depth
+            if ok:
+                rep.ok("R08.7", f"[{cond}] -> text `{txt}` (round-trips under this guard)", None)
+            else:
+                rep.violation("R08.7", fi.key, f"default rendered as text `{txt}` under [{cond}]",
+                              "the text does not denote the default for every value admitted by this guard (repr() of an enum member / date / inf / nested object is not an "
+                              "expression for it; the raw value of a plain Enum member is not equal to the member): omit_default compares with the wrong value, or the generated code does not compile",
+                              loc=fi.loc)
+    if n < 5:
+        rep.error(f"R08.7: only {n} paths of get_field_default_literal")
+
+
 def run(repo: Repo, rep: Report, tier: str) -> None:
     extra = [] if tier == "thorough" else [(r"is_type_var_any", False), (r"is_optional", False)]
     res = packblock.analyse(repo, extra_assume=extra, max_steps=3000000 if tier == "thorough" else 800000)
@@ -65,7 +125,9 @@ def run(repo: Repo, rep: Report, tier: str) -> None:
     _r08_3(repo, rep)
     _r08_4(repo, rep)
     _r08_5(repo, rep)
-
+    from ..core import direction
+    direction.report(repo, rep, "R08.6")
+    _default_literal(repo, rep)
 
 def _r08_2(repo: Repo, rep: Report) -> None:
     fi = repo.func(M_BUILDER, "CodeBuilder.get_dialect_or_config_option")
